@@ -258,7 +258,9 @@ fn make_opts<'a>(rs: &RunSpec, w: &Rc<World>, run: usize) -> StreamOpts<'a, 'a> 
     use interruptible::InterruptibilityState;
     let mut o = StreamOpts::new();
     if rs.reverse {
-        o = o.rev();
+        for _ in 0..rs.rev_calls.max(1) {
+            o = o.rev();
+        }
     }
     if rs.strategy.has_channel() {
         let (tx, rx) = tokio::sync::mpsc::channel::<interruptible::InterruptSignal>(16);
@@ -269,6 +271,13 @@ fn make_opts<'a>(rs: &RunSpec, w: &Rc<World>, run: usize) -> StreamOpts<'a, 'a> 
             Strategy::PollNextN(n) => InterruptibilityState::new_poll_next_n(rx.into(), n),
             Strategy::NonInterruptible => unreachable!(),
         };
+        let mut state = state;
+        if rs.intr_hooks {
+            // the hooks a caller may register (called when the interruption is noticed /
+            // when the interrupted item is polled)
+            state.set_fn_interrupt_activate(Some(|| {}));
+            state.set_fn_interrupt_poll_item(Some(|| {}));
+        }
         o = o.interruptibility_state(state);
     }
     o = o.interrupted_next_item_include(rs.include);
@@ -279,7 +288,9 @@ fn make_opts<'a>(rs: &RunSpec, w: &Rc<World>, run: usize) -> StreamOpts<'a, 'a> 
 fn make_opts<'a>(rs: &RunSpec, _w: &Rc<World>, _run: usize) -> StreamOpts<'a, 'a> {
     let mut o = StreamOpts::new();
     if rs.reverse {
-        o = o.rev();
+        for _ in 0..rs.rev_calls.max(1) {
+            o = o.rev();
+        }
     }
     o
 }
